@@ -150,6 +150,14 @@ def planOf : List String → Option (Plan × List String)
         -- the handler's own writeFile(): the file goes out in reads of the receive block, each written like a part
         (bodyOf b).map fun x => ({ code := c, headers := hs, kind := .streamAuto (partsOf [recvBlock] x) }, rest)
       | "m" :: rest => some ({ code := c, headers := hs, kind := .missing }, rest)
+      | "B" :: b :: rest =>
+        -- put(body) and then write() by the handler itself: the same message as put(body) alone (687bf13)
+        (bodyOf b).map fun x => ({ code := c, headers := hs, kind := .bytes x }, rest)
+      | "F" :: pre :: b :: rest =>
+        -- write(pre) (or sendHeaders() alone), then put(File): the file goes out through writeFile() behind the piece
+        match bodyOf pre, bodyOf b with
+        | some pr, some x => some ({ code := c, headers := hs, kind := .streamAuto ((if pr.isEmpty then [] else [pr]) ++ partsOf [recvBlock] x) }, rest)
+        | _, _ => none
       | "R" :: loc :: rel :: b :: rest =>
         match unhexFast loc, (if rel == "-" then some [] else unhexFast rel), bodyOf b with
         | some l, some rl, some x => some ({ code := c, headers := hs, kind := .redirectRel l (substAuthority rl) x }, rest)
